@@ -158,6 +158,7 @@ func (sr *nodeStreamRequest) onEventFrame(evt *EventFrame) {
 	}()
 
 	if request {
+		verifPoint("sr.request", evt.Channel)
 		// https://github.com/mavlink/qgroundcontrol/blob/08f400355a8f3acf1dd8ed91f7f1c757323ac182/src
 		// /FirmwarePlugin/APM/APMFirmwarePlugin.cc#L626
 		streams := []int{
